@@ -12,8 +12,9 @@ THEOREMS = ["C48_git_reads_ours", "C48_git_reads_ours_unguarded_refuted", "C48_g
             "C48_bool_parsebool_refuted", "C48_bool_parsebool_partial",
             "C48_bool_configbool_refuted", "C48_bool_configbool_partial", "C48_bool_configbool_partial_num",
             "C48_bool_valueless_refuted",
-            "C48_int_window_refuted", "C48_int_window_partial"]
-MODEL_FILES = ["ConfigEnc.v"]
+            "C48_int_window_refuted", "C48_int_window_partial",
+            "C48_set_then_get", "C48_set_get_all", "C48_set_preserves_others", "C48_remove_all_spellings", "C48_add_then_get"]
+MODEL_FILES = ["ConfigEnc.v", "ConfigOpts.v"]
 MODELLED = ("plumbing/format/config/encoder.go: Encoder.Encode/encodeSection/encodeSubsection/encodeOptions with "
             "valueReplacer, subsectionReplacer and the quoting trigger (Model/ConfigEnc.v encode, after the repair that adds CR "
             "to the trigger set); config/config.go + optbool.go boolean / numeric readers (== \"true\", == \"false\" / != \"false\", "
@@ -21,8 +22,12 @@ MODELLED = ("plumbing/format/config/encoder.go: Encoder.Encode/encodeSection/enc
             "and decoder.go's dropping of the valueless-key flag; spec: git 2.39.5 config.c reader as a byte state machine and "
             "git_parse_maybe_bool / git_parse_int (Spec/GitConfig.v). NOT modelled, only exercised: the decoder (external "
             "github.com/go-git/gcfg/v2 scanner) — tied to git by correspondence with `git config --list --null` in both directions; "
-            "config.Config Marshal/Unmarshal field mapping (remotes, branches, submodules, url rewrites) — exercised by the marshal suite")
+            "config.Config Marshal/Unmarshal field mapping (remotes, branches, submodules, url rewrites) — exercised by the marshal and rmw suites; "
+            "plumbing/format/config/option.go IsKey, Get, GetAll, Has, withoutOption, withAddedOption, withSettedOption — the operations behind "
+            "Section/Subsection SetOption, AddOption, RemoveOption (Model/ConfigOpts.v; strings.EqualFold modelled for ASCII keys)")
 TRUSTED = [
+    "C-impl (opts): Subsection/Section SetOption, AddOption, RemoveOption, Option, OptionAll vs Model/ConfigOpts on every opts case; the direct oracle checks the set-then-get contract on the implementation",
+    "rmw: Config.Unmarshal -> field changes -> Config.Marshal on generated git-acceptable files with mixed-case section / key spellings; `git config --file f --list --null` of the rewritten file and go-git's own re-read vs the expected abstract config (managed keys: exactly the new or carried-over values, as a set; every other key as git read it in the original, order included)",
     "C-impl: format/config Encoder bytes vs Model/ConfigEnc.encode on every encode case; config.Config.Unmarshal field values vs the reader models on every interp case",
     "C-git: Spec/GitConfig.git_config_parse vs `git config --file f --list --null` on every decode/encode file (NUL-free), git_bool/git_int vs `git config --type=bool/int` on the interp strings; disagreements counted as spec_mismatches",
     "the gcfg decoder is not modelled: go-git Decode vs git --list is a differential test only (suites decode, encode read-back, marshal read-back)",
@@ -37,7 +42,9 @@ RULE = ("encode: generated format.Config values (1-4 sections, options and subse
         "specials #;\"\\, control \\t\\n\\b, CR, empty, utf8, invalid utf8, NUL, random}); decode: generated config files from a "
         "line grammar (headers in three forms, quoting, escapes, continuations, comments, valueless keys, CRLF, BOM) plus a mutated "
         "malformed stream; interp: reader kind x string from a pool of boolean / integer spellings plus random strings; marshal: "
-        "generated config.Config values; non-trivial = contains a byte outside [A-Za-z0-9] in a value/subsection (encode), file "
+        "generated config.Config values; opts: option lists with mixed-case spellings of a few keys, some AddOption calls then one SetOption / "
+        "RemoveOption; rmw: config files for every go-git-managed key (core, user, pack, init, remote, branch, url) in random letter case, stale "
+        "duplicates, split sections, unmanaged keys, plus a random set of field changes; non-trivial = contains a byte outside [A-Za-z0-9] in a value/subsection (encode), file "
         "accepted by git with at least one entry (decode), any (interp, marshal); distinct by content")
 
 GIT_ENV = dict(os.environ, GIT_CONFIG_NOSYSTEM="1", HOME="/nonexistent", LC_ALL="C", GIT_CONFIG_GLOBAL="/dev/null")
@@ -1015,4 +1022,406 @@ class Marshal(Suite):
         return classes[0]
 
 
-SUITES = [Encode(), Decode(), Interp(), Marshal()]
+# ------------------------------------------------------------------ option operations (SetOption / AddOption / RemoveOption)
+
+def recase(rng, b):
+    """a random letter-case spelling of an ASCII name"""
+    k = rng.randrange(5)
+    if k == 0:
+        return b
+    if k == 1:
+        return b.upper()
+    if k == 2:
+        return b[:1].upper() + b[1:]
+    return bytes((c ^ 0x20) if (65 <= c <= 90 or 97 <= c <= 122) and rng.random() < 0.4 else c for c in b)
+
+
+OPT_KEYS = [b"url", b"fetch", b"bare", b"insteadof", b"merge", b"x-1", b"pushurl"]
+OPT_VALS = [b"a", b"b", b"c", b"true", b"false", b"", b"A"]
+
+
+class Opts(Suite):
+    name = "opts"
+    go_cmd = "c48"
+    coq_imports = "From GoGit Require Import Model.ConfigOpts."
+    quick_n = 160
+    thorough_n = 2500
+
+    def gen(self, rng, n, tier):
+        cases = []
+        for _ in range(n):
+            keys = rng.sample(OPT_KEYS, rng.randrange(1, 4))
+            os_ = [[recase(rng, rng.choice(keys)).hex(), rng.choice(OPT_VALS).hex()] for _ in range(rng.randrange(0, 7))]
+            ops = []
+            nops = rng.randrange(1, 4)
+            for j in range(nops):
+                kind = "add" if j < nops - 1 else pick_weighted(rng, [(7, "set"), (3, "remove")])
+                k = recase(rng, rng.choice(keys)) if rng.random() < 0.5 else rng.choice(keys)
+                if kind == "set":
+                    vs = [rng.choice(OPT_VALS) for _ in range(pick_weighted(rng, [(6, 1), (2, 2), (1, 3), (1, 0)]))]
+                elif kind == "add":
+                    vs = [rng.choice(OPT_VALS)]
+                else:
+                    vs = []
+                ops.append({"kind": kind, "k": k.hex(), "vs": [v.hex() for v in vs]})
+            reads = [recase(rng, k).hex() for k in keys] + [k.hex() for k in keys]
+            cases.append({"bucket": "ops", "op": "opts", "os": os_, "ops": ops, "reads": reads})
+        return cases
+
+    def model_expr(self, c):
+        os_ = coq_list(['("%s", "%s")' % (k, v) for k, v in c["os"]])
+        ops = coq_list(['("%s", "%s", %s)' % (o["kind"], o["k"], coq_list(['"%s"' % v for v in o["vs"]])) for o in c["ops"]])
+        return "c48_opts %s %s %s" % (os_, ops, coq_list(['"%s"' % k for k in c["reads"]]))
+
+    def nontrivial(self, c):
+        ks = [bytes.fromhex(k) for k, _ in c["os"]] + [bytes.fromhex(o["k"]) for o in c["ops"]]
+        return len({k.lower() for k in ks}) < len(set(ks))
+
+    @staticmethod
+    def parse(out):
+        """'( ok ( ( xK xV ) ... ) ( ( xGet ( xAll ... ) ) ... ) )' -> (options, reads)"""
+        toks = out.split()
+        pos = [0]
+
+        def val():
+            t = toks[pos[0]]
+            pos[0] += 1
+            if t == "(":
+                l = []
+                while toks[pos[0]] != ")":
+                    l.append(val())
+                pos[0] += 1
+                return l
+            return bytes.fromhex(t[1:]) if t.startswith("x") else t
+        v = val()
+        if not isinstance(v, list) or not v or v[0] != "ok":
+            return None
+        return v[1], v[2]
+
+    def oracle(self, ctx, cases, impl, model):
+        """the abstract contract on the implementation: after the last set / remove of key K, under every spelling of K
+        only the new values are left (all of them), and options under other keys are untouched"""
+        fails = {}
+        for c in cases:
+            r = impl.get(c["id"])
+            p = self.parse(r["out"]) if r and r["out"].startswith("( ok") else None
+            if p is None:
+                fails[c["id"]] = "no result: %s" % (r["out"][:80] if r else None)
+                continue
+            fin, reads = p
+            # reference: the options are a multimap with case-insensitive keys; the adds append, the final
+            # set / remove of K leaves exactly the new values under K's spellings and nothing else changes
+            cur = [(bytes.fromhex(k), bytes.fromhex(v)) for k, v in c["os"]]
+            for o in c["ops"][:-1]:
+                cur.append((bytes.fromhex(o["k"]), bytes.fromhex(o["vs"][0])))
+            o = c["ops"][-1]
+            k = bytes.fromhex(o["k"]).lower()
+            last = {k: {bytes.fromhex(v) for v in o["vs"]}}
+            why = None
+            fin = [(x[0], x[1]) for x in fin]
+            have = [b for a, b in fin if a.lower() == k]
+            if set(have) != last[k]:
+                why = "after %s of %r to %r the options under its spellings hold %r" % (o["kind"], k, sorted(last[k]), have)
+            others_have = [(a, b) for a, b in fin if a.lower() != k]
+            others_want = [(a, b) for a, b in cur if a.lower() != k]
+            if why is None and others_have != others_want:
+                why = "options under other keys changed: %r, expected %r" % (others_have, others_want)
+            for kh, rd in zip(c["reads"], reads):
+                k = bytes.fromhex(kh)
+                if k.lower() in last and why is None:
+                    if set(rd[1]) != last[k.lower()] or (last[k.lower()] and rd[0] not in last[k.lower()]) or (not last[k.lower()] and rd[0] != b""):
+                        why = "reading %r gives %r / %r, expected %r" % (k, rd[0], rd[1], sorted(last[k.lower()]))
+            if why:
+                fails[c["id"]] = why
+        return fails
+
+
+# ------------------------------------------------------------------ read-modify-write through config.Config
+
+PLAIN = b"abcdefghijklmnopqrstuvwxyzABCDEFGHIJKLMNOPQRSTUVWXYZ0123456789:/.@_+-*"
+FETCHES = [b"+refs/heads/*:refs/remotes/origin/*", b"refs/tags/*:refs/tags/*", b"+refs/pull/*/head:refs/remotes/origin/pr/*", b"refs/heads/main:refs/heads/main"]
+URLV = [b"https://example.com/a.git", b"https://example.com/b.git", b"git@host.example:c.git", b"/srv/git/d.git", b"ssh://h/e.git"]
+
+
+def pv(rng):
+    return rng.choice([b"alpha", b"Beta", b"x/y", b"v1.2", b"a@b.c", b"main", b"trunk", b"42"])
+
+
+class RMW(Suite):
+    name = "rmw"
+    go_cmd = "c48"
+    quick_n = 120
+    thorough_n = 1500
+
+    # (section, key) pairs go-git manages without a subsection, with the harness field they map to
+    SINGLE = {(b"core", b"worktree"): "worktree", (b"core", b"autocrlf"): "autocrlf", (b"core", b"hookspath"): "hookspath",
+              (b"user", b"name"): "uname", (b"user", b"email"): "uemail", (b"init", b"defaultbranch"): "defaultbranch"}
+
+    def gen(self, rng, n, tier):
+        cases = []
+        while len(cases) < n:
+            ents = []          # (section, sub|None, key spelling, value)  in file order, per block
+
+            def add(sec, sub, key, val, stale=True):
+                if stale and rng.random() < 0.35:
+                    ents.append((sec, sub, recase(rng, key), pv(rng) if val not in (b"true", b"false") else rng.choice([b"true", b"false"])))
+                ents.append((sec, sub, recase(rng, key), val))
+            if rng.random() < 0.8:
+                if rng.random() < 0.8:
+                    add(b"core", None, b"bare", rng.choice([b"true", b"false"]))
+                if rng.random() < 0.6:
+                    add(b"core", None, b"filemode", rng.choice([b"true", b"false"]))
+                if rng.random() < 0.3:
+                    add(b"core", None, b"autocrlf", rng.choice([b"true", b"input", b"false"]))
+                if rng.random() < 0.2:
+                    add(b"core", None, b"hookspath", pv(rng))
+                if rng.random() < 0.5:
+                    ents.append((b"core", None, recase(rng, b"ignorecase"), rng.choice([b"true", b"false"])))
+                if rng.random() < 0.3:
+                    ents.append((b"core", None, recase(rng, b"editor"), pv(rng)))
+            if rng.random() < 0.6:
+                add(b"user", None, b"name", pv(rng))
+                if rng.random() < 0.6:
+                    add(b"user", None, b"email", b"j@example.com")
+                if rng.random() < 0.3:
+                    ents.append((b"user", None, recase(rng, b"useconfigonly"), b"true"))
+            if rng.random() < 0.3:
+                add(b"pack", None, b"window", rng.choice([b"5", b"10", b"50"]))
+            if rng.random() < 0.3:
+                add(b"init", None, b"defaultbranch", rng.choice([b"main", b"trunk"]))
+            for rn in rng.sample([b"origin", b"Up", b"fork-1"], rng.randrange(0, 3)):
+                for u in rng.sample(URLV, rng.randrange(1, 3)):
+                    ents.append((b"remote", rn, recase(rng, b"url"), u))
+                for f in rng.sample(FETCHES, rng.randrange(0, 3)):
+                    ents.append((b"remote", rn, recase(rng, b"fetch"), f))
+                if rng.random() < 0.3:
+                    add(b"remote", rn, b"mirror", rng.choice([b"true", b"false"]))
+                if rng.random() < 0.2:
+                    ents.append((b"remote", rn, recase(rng, b"promisor"), rng.choice([b"true", b"false"])))
+                    if rng.random() < 0.7:
+                        ents.append((b"remote", rn, recase(rng, b"partialclonefilter"), b"blob:none"))
+                if rng.random() < 0.4:
+                    ents.append((b"remote", rn, recase(rng, b"tagopt"), b"--no-tags"))
+            for bn in rng.sample([b"main", b"feature/x", b"Rel-1.0"], rng.randrange(0, 3)):
+                if rng.random() < 0.8:
+                    add(b"branch", bn, b"remote", rng.choice([b"origin", b"Up"]))
+                if rng.random() < 0.8:
+                    add(b"branch", bn, b"merge", rng.choice([b"refs/heads/main", b"refs/heads/dev"]))
+                if rng.random() < 0.3:
+                    add(b"branch", bn, b"rebase", rng.choice([b"true", b"interactive", b"false"]), stale=False)
+                if rng.random() < 0.2:
+                    add(b"branch", bn, b"description", pv(rng))
+                if rng.random() < 0.3:
+                    ents.append((b"branch", bn, recase(rng, b"pushremote"), b"fork-1"))
+            for un in rng.sample([b"zz://mirror/", b"qq:"], rng.randrange(0, 2)):
+                for io in rng.sample([b"zz:a", b"zz:b", b"zz:c"], rng.randrange(1, 3)):
+                    ents.append((b"url", un, recase(rng, b"insteadof"), io))
+                if rng.random() < 0.3:
+                    ents.append((b"url", un, recase(rng, b"pushinsteadof"), b"zz:p"))
+            if rng.random() < 0.4:
+                ents.append((b"alias", None, b"co", b"checkout"))
+                ents.append((b"Foo", b"Bar", recase(rng, b"key"), pv(rng)))
+            if not ents:
+                continue
+            # lay the entries out as blocks: consecutive entries of the same (section, sub) share a header;
+            # sometimes a section is split into two blocks
+            text, prev = b"", None
+            order = sorted(range(len(ents)), key=lambda i: (0, i)) if rng.random() < 0.7 else list(range(len(ents)))
+            blocks = []
+            for i in order:
+                sec, sub, key, val = ents[i]
+                if prev != (sec, sub) or rng.random() < 0.1:
+                    hs = recase(rng, sec)
+                    text += b"[" + hs + (b' "' + sub + b'"' if sub is not None else b"") + b"]\n"
+                    prev = (sec, sub)
+                text += rng.choice([b"\t", b"  ", b""]) + key + rng.choice([b" = ", b"=", b" =  "]) + val + b"\n"
+            # mutation
+            mut = {}
+            if rng.random() < 0.5:
+                mut["bare"] = rng.random() < 0.5
+            if rng.random() < 0.3:
+                mut["filemode"] = rng.random() < 0.5
+            for f in ("worktree", "autocrlf", "hookspath", "uname", "uemail", "defaultbranch"):
+                if rng.random() < 0.2:
+                    mut[f] = (rng.choice([b"true", b"input"]) if f == "autocrlf" else pv(rng)).hex()
+            if rng.random() < 0.2:
+                mut["window"] = rng.choice([7, 50, 100])
+            rnames = sorted({e[1] for e in ents if e[0] == b"remote"})
+            mr = []
+            for rn in rnames + ([b"newremote"] if rng.random() < 0.2 else []):
+                if rng.random() < 0.5:
+                    m = {"name": rn.hex()}
+                    if rng.random() < 0.7 or rn == b"newremote":
+                        m["urls"] = [u.hex() for u in rng.sample(URLV, rng.randrange(1, 3))]
+                    if rng.random() < 0.4:
+                        m["fetch"] = [f.hex() for f in rng.sample(FETCHES, rng.randrange(0, 3))]
+                    if rng.random() < 0.2:
+                        m["mirror"] = True
+                    mr.append(m)
+            if mr:
+                mut["remotes"] = mr
+            mb = []
+            for bn in sorted({e[1] for e in ents if e[0] == b"branch"}) + ([b"newbranch"] if rng.random() < 0.15 else []):
+                if rng.random() < 0.5:
+                    m = {"name": bn.hex()}
+                    if rng.random() < 0.6:
+                        m["remote"] = rng.choice([b"origin", b"fork-1", b""]).hex()
+                    if rng.random() < 0.6:
+                        m["merge"] = rng.choice([b"refs/heads/next", b"refs/heads/main", b""]).hex()
+                    if rng.random() < 0.3:
+                        m["rebase"] = rng.choice([b"true", b"false", b""]).hex()
+                    if rng.random() < 0.2:
+                        m["description"] = rng.choice([b"new text", b""]).hex()
+                    mb.append(m)
+            if mb:
+                mut["branches"] = mb
+            mu = []
+            for un in sorted({e[1] for e in ents if e[0] == b"url"}):
+                if rng.random() < 0.5:
+                    mu.append({"name": un.hex(), "insteadof": [x.hex() for x in rng.sample([b"zz:a", b"zz:b", b"zz:d"], rng.randrange(1, 3))]})
+            if mu:
+                mut["urls"] = mu
+            cases.append({"bucket": "rmw", "op": "rmw", "file": text.hex(), "mut": mut,
+                          "ents": [[a.hex(), None if b is None else b.hex(), k.hex(), v.hex()] for a, b, k, v in ents]})
+        return cases
+
+    def nontrivial(self, c):
+        ks = [bytes.fromhex(e[2]) for e in c["ents"]]
+        return any(k != k.lower() for k in ks)
+
+    @staticmethod
+    def expected(c, orig):
+        """orig: git's reading of the original file {name: [values]} -> the expected reading of the rewritten file.
+        Managed keys: exactly the (new or carried-over) value; everything else as in the original."""
+        h = bytes.fromhex
+        mut = c["mut"]
+        exp = dict(orig)
+        managed = set()
+
+        def last(name, default=None):
+            return orig[name][-1] if name in orig else default
+        bare = mut["bare"] if "bare" in mut else last(b"core.bare") == b"true"
+        exp[b"core.bare"] = [b"true" if bare else b"false"]
+        fm = mut["filemode"] if "filemode" in mut else last(b"core.filemode") != b"false"
+        exp[b"core.filemode"] = [b"true" if fm else b"false"]
+        for (sec, key), f in RMW.SINGLE.items():
+            name = sec + b"." + key
+            v = h(mut[f]) if f in mut else last(name, b"")
+            if v:
+                exp[name] = [v]
+        w = mut["window"] if "window" in mut else int(last(b"pack.window", b"10"))
+        if w != 10:
+            exp[b"pack.window"] = [str(w).encode()]
+        remotes = {n.split(b".")[1] for n in orig if n.startswith(b"remote.") and n.count(b".") == 2}
+        mrem = {h(m["name"]): m for m in mut.get("remotes", [])}
+        for rn in remotes | set(mrem):
+            p = b"remote." + rn + b"."
+            m = mrem.get(rn, {})
+            urls = [h(u) for u in m["urls"]] if "urls" in m else orig.get(p + b"url", [])
+            exp.pop(p + b"url", None)
+            if urls:
+                exp[p + b"url"] = urls
+            fetch = [h(u) for u in m["fetch"]] if "fetch" in m else orig.get(p + b"fetch", [])
+            exp.pop(p + b"fetch", None)
+            if fetch:
+                exp[p + b"fetch"] = fetch
+            mirror = m["mirror"] if "mirror" in m else last(p + b"mirror") == b"true"
+            if mirror:
+                exp[p + b"mirror"] = [b"true"]
+            if last(p + b"promisor") == b"true":
+                exp[p + b"promisor"] = [b"true"]
+            else:
+                exp.pop(p + b"promisor", None)
+            pcf = last(p + b"partialclonefilter", b"")
+            exp.pop(p + b"partialclonefilter", None)
+            if pcf:
+                exp[p + b"partialclonefilter"] = [pcf]
+        branches = {n[len(b"branch."):n.rindex(b".")] for n in orig if n.startswith(b"branch.") and n.count(b".") >= 2}
+        mbr = {h(m["name"]): m for m in mut.get("branches", [])}
+        for bn in branches | set(mbr):
+            p = b"branch." + bn + b"."
+            m = mbr.get(bn, {})
+            for k in (b"remote", b"merge", b"rebase", b"description"):
+                v = h(m[k.decode()]) if k.decode() in m else last(p + k, b"")
+                exp.pop(p + k, None)
+                if v:
+                    exp[p + k] = [v]
+        for m in mut.get("urls", []):
+            exp[b"url." + h(m["name"]) + b".insteadof"] = [h(x) for x in m["insteadof"]]
+        for n in list(exp) + list(orig):
+            sec = n.split(b".")[0]
+            key = n.rsplit(b".", 1)[1]
+            if (sec == b"core" and key in (b"bare", b"filemode", b"worktree", b"autocrlf", b"hookspath")) or \
+               (sec == b"user" and key in (b"name", b"email")) or (sec, key) in ((b"pack", b"window"), (b"init", b"defaultbranch")) or \
+               (sec == b"remote" and key in (b"url", b"fetch", b"mirror", b"promisor", b"partialclonefilter")) or \
+               (sec == b"branch" and key in (b"remote", b"merge", b"rebase", b"description")) or (sec == b"url" and key == b"insteadof"):
+                managed.add(n)
+        return exp, managed
+
+    MULTI = (b".url", b".fetch", b".insteadof")
+
+    @classmethod
+    def differs(cls, have, want, managed):
+        """first difference between two readings.  A managed key must hold exactly the expected set of values
+        (SetOption keeps surviving entries where they were, appends new ones, and keeps an entry repeated with the
+        same value — compared as sets); every other key must read as before, order included"""
+        for k in sorted(set(have) | set(want)):
+            a, b = have.get(k), want.get(k)
+            if k in managed and a is not None and b is not None:
+                a, b = sorted(set(a)), sorted(set(b))
+            if a != b:
+                return "%s: rewritten file has %r, expected %r" % (k.decode("latin1"), have.get(k), want.get(k))
+        return None
+
+    def oracle(self, ctx, cases, impl, model):
+        """Unmarshal -> change fields -> Marshal: git (and go-git itself) must read every managed key as the single new
+        value and every other key as before"""
+        fails, files, outs = {}, {}, {}
+        for c in cases:
+            files[c["id"]] = bytes.fromhex(c["file"])
+            r = impl.get(c["id"])
+            ex = (r or {}).get("extra") or {}
+            if "bytes" in ex:
+                outs[c["id"]] = bytes.fromhex(ex["bytes"])
+            else:
+                fails[c["id"]] = "go-git failed on a file git accepts: %s %s" % ((r or {}).get("out"), str(ex.get("err"))[:80])
+        orig = git_list_many(ctx, files, "rmw-in")
+        got = git_list_many(ctx, outs, "rmw-out")
+        for c in cases:
+            i = c["id"]
+            if i not in outs:
+                continue
+            if orig[i] is None:
+                fails.pop(i, None)
+                continue                      # generator bug guard: git rejects the input, no requirement
+            if got[i] is None:
+                fails[i] = "git rejects the rewritten file"
+                continue
+            want, managed = self.expected(c, group(orig[i]))
+            why = self.differs(group(got[i]), want, managed)
+            ex = impl[i]["extra"]
+            if why is None and "readback" not in ex:
+                why = "go-git cannot read back its own output: %s" % ex.get("readback_err", "?")[:80]
+            if why is None:
+                rb = ex["readback"]
+                for m in c["mut"].get("remotes", []):
+                    if "urls" in m:
+                        have = [r["urls"] for r in rb["remotes"] if r["name"] == m["name"]]
+                        if not have or sorted(have[0]) != sorted(m["urls"]):
+                            why = "go-git reads back remote %r urls %r, set %r" % (bytes.fromhex(m["name"]), have, m["urls"])
+                if "bare" in c["mut"] and rb["bare"] != c["mut"]["bare"]:
+                    why = "go-git reads back core.bare %r, set %r" % (rb["bare"], c["mut"]["bare"])
+                for f in ("uname", "uemail", "worktree", "autocrlf", "hookspath", "defaultbranch"):
+                    if f in c["mut"] and rb[f] != c["mut"][f]:
+                        why = "go-git reads back %s %r, set %r" % (f, rb[f], c["mut"][f])
+            if why:
+                fails[i] = why
+        return fails
+
+    def show(self, c):
+        d = dict(c)
+        d["file_text"] = bytes.fromhex(c["file"]).decode("latin1")
+        return d
+
+
+SUITES = [Encode(), Decode(), Interp(), Marshal(), Opts(), RMW()]
